@@ -104,8 +104,7 @@ class DiscoverSubcircuits(UsedQubitIndicesVisitor):
         # far too inflexible for the purposes here.
         indices = defaultdict(set)
 
-        count = len(self.subcircuits)
-        had_started = self.current is not None
+        entry_trace = self.current
 
         # XXX: using a trace restriction here is untested
         for n, stmt in self.trace_statements(block.statements):
@@ -113,7 +112,9 @@ class DiscoverSubcircuits(UsedQubitIndicesVisitor):
                 indices, self.visit(stmt, context=context), disjoint=block.parallel
             )
 
-        if had_started and (reps > 1) and (len(self.subcircuits) != count):
+        # A trace that was open when this block began and has been closed
+        # inside it: that is not possible in a block that repeats.
+        if (reps > 1) and (entry_trace is not None) and (entry_trace.end is not None):
             raise JaqalError("measure_all -> prepare_all not supported in loops")
 
         return indices
